@@ -204,6 +204,11 @@ CO_ERR COSdoGetObject(CO_SDO *srv, uint16_t mode)
     CO_OBJ  *obj;
     uint32_t key;
 
+    /* an initiate request always addresses the object named in this request */
+    srv->Idx = CO_GET_WORD(srv->Frm, 1);
+    srv->Sub = CO_GET_BYTE(srv->Frm, 3);
+    srv->Obj = 0;
+
     key = CO_DEV(srv->Idx, srv->Sub);
     obj = CODictFind(&srv->Node->Dict, key);
     if (obj != 0) {
